@@ -167,8 +167,14 @@ class CGen:
                     out.append(f"{pad}  {iv} += 1;")
                     out.append(f"{pad}}} while ({iv} < {lim});")
             elif k == 3:
-                out.append(f"{pad}switch ({self.expr(vars_, 1)} & 3) {{")
-                for c in range(1 + ch.draw(3, "ncase")):
+                sparse = self.profile == "rich" and ch.chance(1, 3, "sparse")
+                mask = 127 if sparse else 3
+                out.append(f"{pad}switch ({self.expr(vars_, 1)} & {mask}) {{")
+                labels = list(range(1 + ch.draw(3, "ncase")))
+                if sparse:
+                    labels = sorted({ch.draw(128, "caseval")
+                                     for _ in range(2 + ch.draw(6, "nsparse"))})
+                for c in labels:
                     out.append(f"{pad}case {c}:")
                     out += self.block(vars_, 0, indent + 1)
                     out.append(f"{pad}  break;")
@@ -234,9 +240,15 @@ class CGen:
             out.append(f"short h0 = {ch.draw(1000, 'shortinit')};")
             out.append("unsigned char uc0 = 200;")
             out.append("char fn0[] = __FILE__;")
+            out.append("struct B0 { unsigned a:3; unsigned b:5; int c; };")
+            out.append(f"struct B0 bf0 = {{1, {ch.draw(30, 'bfb')}, "
+                       f"{self.const()}}};")
+            out.append(f"rec_t rb[2] = {{{{{self.const()}, 2, 3}}, "
+                       f"{{4, 5, {self.const()}}}}};")
             self.extras += ["EB", "EC", "r0.x", "r0.y", "r0.c", "ra[1].y",
                             "u0.c[1]", "u0.i", "h0", "uc0", "fn0[1]",
-                            "sizeof(__FILE__)"]
+                            "sizeof(__FILE__)", "bf0.a", "bf0.b", "bf0.c",
+                            "rb[1].y", "rb[0].c"]
         if self.pointers:
             # data relocations: globals initialised with addresses
             for i, g in enumerate(self.globals_[: ch.draw(3, "nptr")]):
@@ -304,15 +316,28 @@ def gen_project(ch, tag):
     return main, members, f"entry{tag}"
 
 
-def gen_c3_unit(ch, tag="m"):
-    """Small C3 module: globals, several functions with many live locals,
-    while loops, if/else, calls."""
+def gen_c3_unit(ch, tag="m", imports=()):
+    """Small C3 module: globals, constants, a struct, several functions with
+    many live locals, while loops, if/else, calls - also into the public
+    functions of earlier modules of the same build (`imports` is a list of
+    (module name, [(function, nparams)], [public globals]))."""
     out = [f"module mod{tag};"]
+    for modname, _, _ in imports:
+        out.append(f"import {modname};")
     globs = []
     for i in range(ch.draw(4, "c3nglob")):
-        out.append(f"var int g{i};")
+        out.append(f"public var int g{i};")
         globs.append(f"g{i}")
+    if ch.chance(1, 2, "c3consts"):
+        out.append(f"const int CA = {1 + ch.draw(99, 'c3ca')};")
+        out.append("type struct { int x; int y; } pt_t;")
+        out.append("var pt_t pa;")
+        globs += ["CA", "pa.x", "pa.y"]
+    for modname, _, pubs in imports:
+        globs += [f"{modname}.{g}" for g in pubs]
     funcs = []
+    for modname, fns, _ in imports:
+        funcs += [(f"{modname}.{f}", n) for f, n in fns]
 
     def expr(vars_, depth):
         if depth <= 0 or ch.chance(1, 4, "c3leaf"):
@@ -359,7 +384,7 @@ def gen_c3_unit(ch, tag="m"):
     for i in range(1 + ch.draw(4, "c3nfun")):
         nparams = ch.draw(4, "c3nparams")
         params = [f"p{j}" for j in range(nparams)]
-        out.append(f"function int f{i}("
+        out.append(f"public function int f{i}("
                    + ", ".join("int " + q for q in params) + ")")
         out.append("{")
         vars_ = list(params)
@@ -373,7 +398,9 @@ def gen_c3_unit(ch, tag="m"):
         out.append("  return " + " + ".join(vars_) + ";")
         out.append("}")
         funcs.append((f"f{i}", nparams))
-    return "\n".join(out) + "\n"
+    own = [(f, n) for f, n in funcs if "." not in f]
+    pubs = [g for g in globs if g.startswith("g")]
+    return "\n".join(out) + "\n", (f"mod{tag}", own, pubs)
 
 
 def gen_bf(ch):
